@@ -59,6 +59,16 @@ func (d *Data) isEntity(def *ast.Definition) bool {
 	return false
 }
 
+func (d *Data) atRoot(base string) bool {
+	if i := strings.Index(base, "("); i >= 0 {
+		base = base[:i]
+	}
+	if strings.Count(base, "/") != 1 || strings.Contains(base, "[") {
+		return false
+	}
+	return strings.HasPrefix(base, "Query/") || strings.HasPrefix(base, "Mutation/") || strings.HasPrefix(base, "Subscription")
+}
+
 // MakeID renders entity id n of type t.
 func (d *Data) MakeID(t string, n int) string {
 	switch d.Cfg.IDStyle {
@@ -122,6 +132,10 @@ func (d *Data) gen(t *ast.Type, h uint64, base string) any {
 		n := 0
 		if d.Cfg.FixedLen > 0 {
 			n = d.Cfg.FixedLen
+			// only lists directly below the root get the full length, deeper ones stay small
+			if n > 2 && !d.atRoot(base) {
+				n = 2
+			}
 		} else if d.Cfg.ListMax > 0 {
 			n = int((h >> 16) % uint64(d.Cfg.ListMax+1))
 		}
